@@ -198,6 +198,12 @@ def Binding.isUser : Binding → Bool
 def Obj.Fresh (o : Obj) : Prop :=
   (∀ n b, kget n o.cls = some b → b.isUser = true) ∧ (∀ n b, kget n o.inst = some b → b.isUser = true)
 
+def Obj.freshB (o : Obj) : Bool := o.cls.all (fun p => p.2.isUser) && o.inst.all (fun p => p.2.isUser)
+
+theorem Obj.fresh_of_freshB {o : Obj} (h : o.freshB = true) : o.Fresh := by
+  simp only [Obj.freshB, Bool.and_eq_true, List.all_eq_true] at h
+  exact ⟨fun n b hb => h.1 (n, b) (kget_mem _ _ _ hb), fun n b hb => h.2 (n, b) (kget_mem _ _ _ hb)⟩
+
 /-- `model_attribute` hygiene: the state attribute is not named like `trigger` or a `may_` helper
 (otherwise `_checked_assignment` with `model_override` would replace the state value itself) -/
 def AttrOK (attr : Name) : Prop := attr ≠ sTrigger ∧ ¬ sMay <+: attr
@@ -795,6 +801,16 @@ theorem Inv.fire {hm : HM} (h : Inv hm) (m : Nat) (e : Name) : Inv (fire hm m e)
 
 /-- every object handed to `add_model` is fresh (carries nothing of this machine yet) -/
 def OpsFresh (ops : List Op) : Prop := ∀ m o, Op.addModel m o ∈ ops → o.Fresh
+
+def opsFreshB (ops : List Op) : Bool :=
+  ops.all fun op => match op with
+    | .addModel _ o => o.freshB
+    | _ => true
+
+theorem opsFresh_of_B {ops : List Op} (h : opsFreshB ops = true) : OpsFresh ops := by
+  intro m o hmo
+  simp only [opsFreshB, List.all_eq_true] at h
+  exact Obj.fresh_of_freshB (h _ hmo)
 
 theorem Inv.applyOp {hm : HM} (h : Inv hm) (op : Op) (hf : ∀ m o, op = .addModel m o → o.Fresh) : Inv (applyOp hm op).1 := by
   cases op with
